@@ -80,7 +80,7 @@ def run(ctx, spec):
 
     if kind == 'mix':
         for _ in range(4):
-            d = rng.randrange(1, r)
+            d = gen.dlog(rng)
             rep = rng.choice(gen.REPS)
             P = rm.gmul(which, d)
             Preg = gen.point(pr, rng, which, d, rep)
@@ -109,7 +109,7 @@ def run(ctx, spec):
         reg, i = pr.let(g + '.mul', Treg, h32(k))
         exp[i] = ('%s.mul/outside' % g, rm.cmul(F, k, T), (which, 'out', T[0], k), k > 1)
         # derived laws
-        d = rng.randrange(1, r)
+        d = gen.dlog(rng)
         rep = rng.choice(gen.REPS)
         Preg = gen.point(pr, rng, which, d, rep)
         a, _c = gen.scalar_r(rng)
